@@ -32,7 +32,7 @@ from ..tok import S
 
 PID = "C20"
 COQ_HEADER = ("From Coq Require Import ZArith NArith List.\nImport ListNotations.\n"
-              "From SK Require Import lib.Tok model.C20_Model model.C20_Persist model.C20_Inputs.\n")
+              "From SK Require Import lib.Tok model.C20_Model model.C20_Persist model.C20_Inputs model.C20_RawModel.\n")
 SHARD = 120
 IMPL_TIMEOUT = 1500
 COQ_TIMEOUT = 1500
@@ -58,7 +58,9 @@ TRUSTED_BASE = [
     "harness encoders harness/props/C20.py (labels -> rank in sorted order; places -> 3*s / 3*e+1 / 3*e+2; observables -> tok)",
     "hypergraph_to_bipartite (C16) is modelled only as far as C20 needs it: species sorted by label, one arc per (reaction, side, species) with role and stoich",
     "CPython dict / set / deque / itertools.combinations semantics",
-    "defaults of absent graph attributes (stoich -> 1, label -> node id, kind -> bipartite flag) are applied by the encoder; the Gallina arcs always carry a coefficient",
+    "caller-supplied DiGraphs go through the attribute layer of the model (model/C20_RawModel.v: classification by kind / bipartite, label fall-back to str(node), role test, stoich "
+    "default 1; for undirected Graphs the orientation of every stored edge by its role as _as_bipartite does it); the encoder hands over each attribute as the code's == tests "
+    "read it and interns label strings / str(node) to ranks among the species names",
 ]
 ASSUMPTIONS = ["species labels do not start with '__ext__' / '__target__' (place names of the extended net would collide)",
                "stoichiometric coefficients are positive integers",
@@ -145,6 +147,26 @@ def _crn_input(case, H):
         for u, v, d in G.edges(data=True):
             G2.add_edge(u, v, **d)
         G = G2
+    if case.get("junk") and mode == "bip":
+        # things the code must ignore: a node without attributes, nodes with foreign attribute values, a species-species edge, a
+        # role-less and a foreign-role incidence, an edge from an unclassified node to a reaction
+        import random
+        jr = random.Random(case["junk"])
+        sp = [u for u, d in G.nodes(data=True) if d.get("kind") == "species" or d.get("bipartite") == 0]
+        rn = [u for u, d in G.nodes(data=True) if not (d.get("kind") == "species" or d.get("bipartite") == 0)]
+        G.add_node("zz_junk")
+        G.add_node("zz_other", kind="other", bipartite=2, label=jr.choice(["A", "zz", "0"]))
+        if len(sp) >= 2:
+            u, v = jr.sample(sp, 2)
+            if not G.has_edge(u, v):
+                G.add_edge(u, v, role="product", stoich=3)
+        if sp and rn:
+            u, v = jr.choice(sp), jr.choice(rn)
+            if not G.has_edge(u, v) and not G.has_edge(v, u):
+                G.add_edge(u, v, **jr.choice([{}, {"stoich": 2}, {"role": "catalyst", "stoich": 2}, {"role": None}]))
+        if rn:
+            G.add_edge("zz_junk", jr.choice(rn), role="reactant", stoich=2)
+            G.add_edge(jr.choice(rn), "zz_other", role="product")
     if mode == "bip":
         return G
     if mode == "und":
@@ -714,6 +736,26 @@ def coq_case(case):
         n = len(ref)
         if case.get("mode") == "und" and _has_catalyst(case):
             return None
+        if case.get("mode") in ("bip", "und"):
+            # caller-supplied DiGraph / undirected Graph (edges in the orientation the graph stores them): the graph AS IT IS (attributes present or absent, junk included) goes to the attribute layer of
+            # the model (model/C20_RawModel.v); labels and str(node) are interned to their rank among the species names
+            G = _crn_input(case, _build_H(case))
+            nid = {u: i + 1 for i, u in enumerate(G.nodes)}
+
+            def tri(v, yes, no):
+                return "(Some true)" if v == yes else "(Some false)" if v == no else "None"
+            nodes = ["(RNode %s %s %s %s %s)" % (
+                cnat(nid[u]), tri(a.get("kind"), "species", "reaction"), tri(a["bipartite"], 0, 1) if "bipartite" in a else "None",
+                "(Some %s)" % cnat(rank.get(str(a["label"]), 999)) if "label" in a else "None", cnat(rank.get(str(u), 999)))
+                for u, a in G.nodes(data=True)]
+            arcs = ["(RArc %s %s %s %s)" % (
+                cnat(nid[u]), cnat(nid[v]),
+                "(Some Reactant)" if a.get("role") == "reactant" else "(Some Product)" if a.get("role") == "product" else "None",
+                "(Some %s)" % cZ(int(a["stoich"])) if "stoich" in a else "None") for u, v, a in G.edges(data=True)]
+            return "%s (RG %s %s) %s %s %s" % (
+                "run_net_raw" if case["mode"] == "bip" else "run_net_raw_und", clist(nodes), clist(arcs), cnat(case.get("k", n)),
+                clist([clist([cnat(i) for i in c]) for c in case.get("cands", [])]),
+                clist([clist([cnat(i) for i in sup]) for sup in _persist_supports(case)]))
         rx = clist([cpair(_cside(l, rank), _cside(r, rank)) for l, r in case["rxns"]])
         return "run_net_p %s %s %s %s %s %s %s" % (cnat(n), rx, cbool(case.get("mode") == "und"), cnat(case.get("k", n)),
                                                   clist([clist([cnat(i) for i in c]) for c in case.get("cands", [])]),
@@ -1527,6 +1569,8 @@ def gen_random_nets(n, rng):
         if c["mode"] != "hg" and rng.random() < 0.2 and not any(x.startswith("R:") for x in _all_species(c)):
             c["bare"] = True
             c["int_ids"] = False
+        if c["mode"] == "bip" and rng.random() < 0.4:
+            c["junk"] = rng.randrange(1, 10 ** 6)
         nsp = len(_all_species(c))
         c["k"] = rng.randint(0, nsp + 1)
         nc = rng.randint(0, 7)
@@ -2139,7 +2183,7 @@ def gen_cases(tier, rng):
     return cases
 
 
-LEVEL_TEXT = ("Machine-checked proof (Coq, 21 theorems, all closed under the global context) over an executable, structure-following model of "
+LEVEL_TEXT = ("Machine-checked proof (Coq, 24 theorems, all closed under the global context) over an executable, structure-following model of "
               "structure.py / net.py / realizability.py: (1) the siphon and trap index predicates equal the Petri-net definitions for every network "
               "and every species subset; (2) _minimal_sets returns exactly the inclusion-minimal candidates for every candidate list; (3) find_siphons / "
               "find_traps report exactly the minimal non-empty siphons / traps (for every max_size); (4) enabled <=> marking covers the reactants, "
